@@ -212,9 +212,14 @@ class _BaseLayout(MaildirLayout[_MaildirT], metaclass=ABCMeta):
     def get_folder(self, name: str, delimiter: str) -> _MaildirT:
         path = self.get_path(name, delimiter)
         try:
-            return self._maildir(path, create=False)
+            maildir = self._maildir(path, create=False)
         except NoSuchMailboxError as exc:
             raise FileNotFoundError(path) from exc
+        for subdir in ('new', 'cur', 'tmp'):
+            if not os.path.isdir(os.path.join(path, subdir)):
+                # e.g. the creation of the folder was interrupted
+                raise FileNotFoundError(path)
+        return maildir
 
     def add_folder(self, name: str, delimiter: str) -> None:
         parts = self._split(name, delimiter)
